@@ -199,10 +199,23 @@ def t_dot_segments(c, rng):
     elif kind == "escupdown":
         d["path"][i:i] = [["y"], ["%2E", "%2e"]]
     else:
-        if "".join(nxt) in ("..", "%2e%2e", "%2E%2E", "%2E%2e", "%2e%2E", ".%2e", "%2e.", ".%2E", "%2E."):
-            return None  # never '..' directly after an empty segment (resolution order is ambiguous)
+        # an empty segment may also be inserted right before '..': empty segments are dropped before dot segments are resolved
         d["path"][i:i] = [[]]
     return d
+
+
+def _plain(seg):
+    return "".join(seg).replace("%2e", ".").replace("%2E", ".")
+
+
+def dotdot_follows(path, i):
+    """Is the first segment at or after index i that is not '.' (nor empty) a '..'?"""
+    for seg in path[i:]:
+        t = _plain(seg)
+        if t in (".", ""):
+            continue
+        return t == ".."
+    return False
 
 
 def t_empty_delims(c, rng):
